@@ -170,7 +170,7 @@ def run_child(work, idx, j, part, tier, seed):
     env = dict(ENV)
     racelog = os.path.join(work, name + ".race")
     if j["bin"] == "race":
-        env["GORACE"] = "halt_on_error=0 log_path=%s history_size=3" % racelog
+        env["GORACE"] = "halt_on_error=0 exitcode=0 log_path=%s history_size=3" % racelog
     t0 = time.time()
     with open(log, "wb") as lf:
         p = subprocess.run(cmd, env=env, stdout=lf, stderr=subprocess.STDOUT, cwd=work)
